@@ -109,7 +109,7 @@ def main(chk):
         earlier = fresh_answers(rng, prob, prob['N']) if history else None
         cfg = dict(zip(prob['attrs'], prob['sizes']))
         for oracle in ('convex', 'approx', 'pairwise'):
-            iters = rng.choice([60, 300]) if not disjoint else 1500
+            iters = rng.choice([60, 300, 60, 300, 1, 2, 3, 7, 15]) if not disjoint else 1500      # also very few iterations: the fit must still be no worse than the uniform start
             info = dict(infgen.describe(prob), stream=stream, oracle=oracle, iters=iters, disjoint_cliques=disjoint, total=('known' if known else 'estimated'),
                         earlier_call_on_same_engine=(infgen.describe(earlier)['measurements'] if history else None))
             chk.count('oracle.' + oracle); chk.count('stream.' + stream); chk.count('history.' + ('second-call' if history else 'fresh-engine'))
